@@ -30,7 +30,8 @@ THEOREMS_3 = ["C02_adm_ctor", "C02_adm_accept_wf", "C02_adm_reject_unchanged", "
 THEOREMS_TV = ["C02_tv_hierarchy", "C02_tv_xsd_types", "C02_tv_cast_sound", "C02_tv_cast_identity", "C02_tv_cast_complete",
                "C02_tv_cast_errors", "C02_tv_bounds", "C02_tv_holder_ctor", "C02_tv_holder_accept_wf",
                "C02_tv_holder_reject_unchanged", "C02_tv_holder_history", "C02_tv_range_ctor", "C02_tv_range_accept_wf",
-               "C02_tv_range_reject_unchanged", "C02_tv_range_history", "C02_tv_example"]
+               "C02_tv_range_reject_unchanged", "C02_tv_range_history", "C02_tv_setters_property",
+               "C02_tv_setters_extension", "C02_tv_setters_range", "C02_tv_example"]
 THEOREMS_4 = ["C02_sml_accept_wf", "C02_sml_reject", "C02_sml_history", "C02_sml_example",
               "C02_sml_step", "C02_sml_ops_history", "C02_sml_ops_example"]
 
@@ -624,11 +625,11 @@ def attr_verdict(e, ok, read, s, before, lbl):
 # =====================================================================================================
 
 def regenerate(chk):
-    from py2coq import refchecks, intranges, strconstraints, beechecks, semsetter, typedvalues
+    from py2coq import refchecks, intranges, strconstraints, beechecks, semsetter, typedvalues, typedsetters
     from py2coq.c02engine import Abort
     infos = {}
     for name, mod in (("refs", refchecks), ("ints", intranges), ("strs", strconstraints), ("bee", beechecks),
-                      ("sem", semsetter), ("typed", typedvalues)):
+                      ("sem", semsetter), ("typed", typedvalues), ("typedset", typedsetters)):
         try:
             infos[name] = mod.regenerate(common.REPO, common.GEN)
         except Abort as e:
@@ -688,7 +689,7 @@ def run(chk):
             common.run_mismatch_shards = common_run
     chk.trusted = [
         "Coq 8.16.1 kernel (coqc; vm_compute for Examples and the tie evaluation; no native_compute)",
-        "translators tools/py2coq/{c02engine,refchecks,intranges,strconstraints,beechecks,semsetter,typedvalues}.py (fail-closed; validated on every run "
+        "translators tools/py2coq/{c02engine,refchecks,intranges,strconstraints,beechecks,semsetter,typedvalues,typedsetters}.py (fail-closed; validated on every run "
         "by evaluating the generated definitions and the Python originals on the same inputs)",
         "Python's re.fullmatch decides membership in the regular language of the (escape-free) patterns translated",
         "str.isalpha restricted to ASCII = [A-Za-z] (premise of C02_id_short, checked on all 128 code points)",
